@@ -187,11 +187,11 @@ def run(tier="quick", seed=0, pid="C02"):
             "detail": f"{kind}: constraints {progs!r} on input {w!r} (fitness {fit!r})",
             "script": replay_script("b", pid, [gname, progs, w])})
     return {
-        "evaluations": ea + eb, "distinct_nontrivial": ea + len(distinct),
+        "evaluations": ea + eb, "distinct_nontrivial": (ea - 1) + len(distinct),
         "rule": (f"{pid}: (A) every list of up to {4 if tier == 'quick' else 6} stub constraints from 5 behaviours (satisfied 1/1, 3/3; unsatisfied 0/1, 3/4; "
                  "raising) through the real Evaluator._evaluate_constraints; (B) 6 sets of 2-3 hard constraints x the words of two small "
                  "grammars through the real spec reader and Evaluator.evaluate_individual against the reference evaluator of bounded/c07; "
-                 "distinct = distinct stub lists + distinct (constraint set, word); all non-trivial except the empty list"),
+                 "distinct = distinct non-empty stub lists + distinct (constraint set, word)"),
         "bound": "lists of at most 4 (6 thorough) stubs; two grammars, words up to 9 atoms", "samples": samples,
         "violations": violations, "undecided": undecided, "wall_s": round(time.time() - t0, 1),
     }
